@@ -130,8 +130,8 @@ def assemble(unit, meta, extra_lemmas=None):
         emit(prelude.generate_mx())
     if unit == "F64":
         emit(prelude.generate_fp())
-    if unit != "F64" and unit != "Derivative":
-        emit(prelude.generate_fmt(unit in VECTOR_UNITS))
+    if unit != "F64":
+        emit(prelude.generate_fmt(unit in VECTOR_UNITS or unit == "Derivative"))
     if unit in VECTOR_UNITS:
         emit("\n// ===== Derivative: contracts only (external_body stubs); the bodies are verified in unit Derivative =====\n")
         emit(open(os.path.join(GEN, "Derivative.iface.rs")).read())
